@@ -50,6 +50,54 @@ def ty_range(ty):
 class Intervals:
     def __init__(self, fx, body, prov):
         self.fx, self.b, self.prov = fx, body, prov
+        self.ctx = None
+
+    def at(self, conds, bi):
+        """evaluate at block bi: every (sub)term that a comparison dominating bi relates to a value of known range is tightened by it
+        (`match v { -1131..=-108 => -v - 108 }`: v, and therefore -v, is bounded inside the arm). Terms are SSA values, so a
+        comparison that dominates the site constrains the same value the site reads."""
+        idx = {}
+        for tb, fb, o, x, y, sw in conds:
+            for blk, oo in ((tb, o), (fb, guards.CMP_NEG.get(o))):
+                if blk is None or oo is None or not self.b.dominates(blk, bi):
+                    continue
+                xs, ys = sym.strip(x), sym.strip(y)
+                idx.setdefault(sym.norm(xs), []).append((oo, ys))
+                fl = guards.CMP_FLIP.get(oo)
+                if fl:
+                    idx.setdefault(sym.norm(ys), []).append((fl, xs))
+        self.ctx = idx
+        return self
+
+    def term(self, t, depth=0):
+        r = self.term0(t, depth)
+        if self.ctx and depth <= 30 and t[0] not in ("c", "uneval"):
+            rels = self.ctx.get(sym.norm(sym.strip(t)))
+            if rels:
+                lo, hi = r if r else (-(1 << 200), 1 << 200)
+                ctx, self.ctx = self.ctx, None
+                try:
+                    for rel, other in rels:
+                        oi = self.term0(other, depth + 1)
+                        if oi is None:
+                            continue
+                        if rel == "Lt":
+                            hi = min(hi, oi[1] - 1)
+                        elif rel == "Le":
+                            hi = min(hi, oi[1])
+                        elif rel == "Gt":
+                            lo = max(lo, oi[0] + 1)
+                        elif rel == "Ge":
+                            lo = max(lo, oi[0])
+                        elif rel == "Eq":
+                            lo, hi = max(lo, oi[0]), min(hi, oi[1])
+                finally:
+                    self.ctx = ctx
+                if lo <= hi and (lo > -(1 << 200) and hi < (1 << 200)):
+                    r = (lo, hi)
+                elif lo <= hi and r is not None:
+                    r = (max(lo, r[0]), min(hi, r[1]))
+        return r
 
     def op(self, op):
         ty = (op.get("p") or {}).get("ty") if op["k"] in ("copy", "move") else op.get("ty")
@@ -76,7 +124,7 @@ class Intervals:
             return t[3]
         return None
 
-    def term(self, t, depth=0):
+    def term0(self, t, depth=0):
         if depth > 30:
             return None
         k = t[0]
@@ -121,6 +169,18 @@ class Intervals:
             name, args, decl = t[1] or "", t[2], t[4] or ""
             dr = ty_range(t[5] if len(t) > 5 else None)
             if name.endswith(origins.LEN_FNS) or decl.endswith(origins.LEN_FNS):
+                # len() of a fixed-size array viewed as a slice is the array length
+                if args:
+                    a0 = args[0]
+                    for _ in range(6):
+                        if a0[0] in ("ref", "deref", "copy"):
+                            a0 = a0[1]
+                        else:
+                            break
+                    if a0[0] == "cast" and "Unsize" in str(a0[1]):
+                        m = re.match(r"^&(?:mut )?\[.*; (\d+)\]$", str(a0[2]))
+                        if m:
+                            return (int(m.group(1)), int(m.group(1)))
                 return meet(LEN, dr)
             m = re.search(r"impl std::convert::(?:Try)?From<(\w+)> for (\w+)", name)
             if m and args:
@@ -244,7 +304,9 @@ def sites(fx, select=None):
 def discharge(fx, O, s, cache):
     b, bi, t = s.b, s.bb, s.t
     prov = O.prov(b)
-    iv = Intervals(fx, b, prov)
+    if b.dp not in cache:
+        cache[b.dp] = guards.branch_conditions(b, prov)
+    iv = Intervals(fx, b, prov).at(cache[b.dp], bi)
     ops = t.get("ops") or []
     rng = INT.get(s.ty)
     if s.op == "Neg" and len(ops) >= 1 and rng:
@@ -283,6 +345,10 @@ def discharge(fx, O, s, cache):
     # both readings of one monotone counter
     if is_counter(ta) and is_counter_or_snapshot(tc, ta):
         return "difference of two readings of the same write counter (bytes_written only grows)"
+    # the minuend is an item of `start..end` / `start..=end` and the subtrahend is that start
+    st = range_start(ta)
+    if st is not None and sym.norm(sym.strip(st)) == nc:
+        return "minuend iterates a range that starts at the subtrahend"
     if b.dp not in cache:
         cache[b.dp] = guards.branch_conditions(b, prov)
     kc = tc[1] if tc[0] == "c" and isinstance(tc[1], int) else None
@@ -348,6 +414,24 @@ def refine(b, prov, iv, conds, bi, op, cur):
             elif rel == "Eq":
                 lo, hi = max(lo, oi[0]), min(hi, oi[1])
     return (lo, hi) if lo <= hi else cur
+
+
+def range_start(t):
+    """start of the integer range whose iteration produced t: (iter.next() as Some).0 over Range/RangeInclusive built in place"""
+    t = sym.strip(t)
+    if not (t[0] == "field" and t[1][0] == "variant" and t[1][2] == "Some"):
+        return None
+    c = sym.strip(t[1][1])
+    if not (c[0] == "call" and re.search(r"Iterator for std::ops::Range(Inclusive)?<A>>::next$", c[1] or "") and c[2]):
+        return None
+    it = sym.strip(c[2][0])
+    while it[0] in ("ref", "deref") or (it[0] == "call" and (it[4] or it[1] or "").endswith("IntoIterator::into_iter") and it[2]):
+        it = sym.strip(it[1] if it[0] in ("ref", "deref") else it[2][0])
+    if it[0] == "call" and (it[1] or "").endswith("RangeInclusive::<Idx>::new") and len(it[2]) == 2:
+        return it[2][0]
+    if it[0] == "agg" and str(it[1]).endswith(("ops::Range", "ops::RangeInclusive")) and len(it[3]) >= 2:
+        return it[3][0]
+    return None
 
 
 def indexing_len_of(t):
